@@ -70,3 +70,28 @@ def run(ctx):
            "encoder stores marker bytes %s, decoder tests for %s" % (sorted(set(stores)), eqs), en.loc())
     les = [c for o, c in cd if o == "Le"]
     ctx.ob("V2.ONE-BYTE-RANGE", "encode~decode", bool(les) and bool(cl) and les[0] == cl[0][1], "single-byte range <= %s on both sides" % (les[0] if les else None), d.loc())
+    # V3 CLASS-CONTIGUITY: arithmetic identities between the constants of the three functions (constants are read from the MIR,
+    # nothing is executed): the offset subtracted in a class is one more than the previous class's upper bound (no value falls between
+    # two classes or into both), the decoder adds back exactly what the encoder subtracts, the 2-byte class has as many values as its
+    # first-byte range can address, and the 3-byte class ends at base + 0xFFFF.
+    def bin_consts(f, ops):
+        out = []
+        for b in f.blocks:
+            for s in b["s"]:
+                if s[0] == "=" and s[2][0] == "bin" and s[2][1] in ops:
+                    for side in ((s[2][3], s[2][2]) if s[2][1].startswith("Add") else (s[2][3],)):
+                        if side[0] == "k" and side[4] is not None and side[4] > 8:
+                            out.append((s[3], side[4]))
+        return [v for _, v in sorted(out)]
+    T = [c for o, c in ce if o == "Le"]
+    S = bin_consts(en, ("Sub", "SubWithOverflow"))
+    A = sorted(set(bin_consts(d, ("Add", "AddWithOverflow"))))
+    D = [c for o, c in cd if o == "Le"]
+    ok = len(T) >= 3 and len(S) >= 2 and len(D) >= 2
+    why = "thresholds %s, encoder offsets %s, decoder offsets %s, decoder first-byte bounds %s" % (T[:3], S[:2], A[:2], D[:2])
+    if ok:
+        ok = (S[0] == T[0] and S[1] == T[1] + 1 and A[:2] == sorted(S[:2]) and D[0] == T[0]
+              and T[1] == T[0] + (D[1] - D[0]) * 256 - 1 and T[2] == S[1] + 0xFFFF)
+    ctx.ob("V3.CLASS-CONTIGUITY", "varint classes", ok, "classes are contiguous and writer/reader offsets agree (%s)" % why if ok else
+           "the length classes do not tile the value range, or the decoder adds back another offset than the encoder subtracts (%s): some value "
+           "is encoded in a form the decoder reads as a different value or rejects" % why, en.loc())
